@@ -32,8 +32,8 @@ OPEN_STATEMENTS = [
     'extractor_sound / dissolve_sound / binary_code_transform_sound (action of the transformed operator on encoded states) and '
     'bct_jw_eq_jw / bct_bk_eq_bk: not proved; covered by the transform stream (Model correspondence + Spec oracle on every '
     'encoded domain state + term-for-term comparison with jordan_wigner / bravyi_kitaev)',
-    'soundness of the constructors BinaryPolynomial(str) / BinaryPolynomial(list) (parse paths) and Shaped for the composite '
-    'constructors: covered by the poly-programs / codes streams only',
+    'soundness of the constructor BinaryPolynomial(list of tuples) (BinaryPolynomial(str) is proved: string_constructor_sound) and '
+    'Shaped for the composite constructors: covered by the poly-programs / codes streams only',
 ]
 TRUSTED = [
     'C09: string tokenisation of BinaryPolynomial(str) (str.split / isdigit / int) is done by the harness '
